@@ -11,6 +11,7 @@ from sim import cmds, drvsim, plans, syncsim
 from sim.core import Violation
 from sim.oracles import base_result
 from sim.runner import add_violation, new_result
+from checks.c16 import judge_response
 
 PROP = "C18"
 LEVEL = "exploration"
@@ -22,7 +23,7 @@ RULE = ("one seed -> one plan: driver = seed mod 9 (hid tridonic, hid hasseb, LU
         "Tridonic USB, legacy hasseb, UniPi); 8-40 commands drawn over all categories of the library (every concrete "
         "class is reachable) plus frames of unsupported length (8, 9-15, 17, 20, 25, 32 bits, 24 bits where the gateway "
         "is 16-bit only); every 40th plan of a driver with sequence numbers sends > 600 commands; async plans may have "
-        "a second concurrent caller. Every packet written is parsed by the referee and compared with the command's "
+        "a second concurrent caller; the gateway model answers the first caller's queries with silence, a value (0, 255, ...) or a framing error and the returned response is compared with it. Every packet written is parsed by the referee and compared with the command's "
         "frame and flags. Non-trivial iff the run contained a send-twice command, a 24-bit command and a refusal, or "
         "a sequence-number wrap; distinct = distinct (event kind, actor) sequence plus command categories.")
 ASSUMPTIONS = [
@@ -35,9 +36,9 @@ COMPONENTS = {
     "real": ["dali.driver.hid.tridonic/hasseb", "dali.driver.serial LUBA/SCI send_dali_command", "dali.driver.daliserver.DaliServer.send",
              "dali.driver.atxled construct/send", "dali.driver.tridonic construct/_get_sn/send", "dali.driver.hasseb construct/send",
              "dali.driver.unipi construct/send"],
-    "stub": ["VirtualLoop, os, serial_asyncio, socket, serial.Serial, time", "usb / hid / pymodbus.client.sync modules", "gateway firmware"],
+    "stub": ["asyncio.wait_for of CPython 3.8-3.11 (transcribed, sim/legacy_asyncio.py) on ~25 % of the asyncio-driver runs", "VirtualLoop, os, serial_asyncio, socket, serial.Serial, time", "usb / hid / pymodbus.client.sync modules", "gateway firmware"],
 }
-PROBES = ["rx-table", "seq-wrapped", "refused-unsupported-length", "send-twice-encoded", "24-bit-encoded", "concurrent-callers",
+PROBES = ["slow-confirmation-set-aside", "rx-table", "rx-value", "rx-silent", "rx-error", "seq-wrapped", "refused-unsupported-length", "send-twice-encoded", "24-bit-encoded", "concurrent-callers",
           "dt-prefix-emitted", "long-run-600"]
 
 ENGINES = ("tridonic", "hasseb", "luba", "sci", "daliserver", "atx", "legacy-tridonic", "legacy-hasseb", "unipi")
@@ -77,6 +78,16 @@ def gen_plan(seed, tier="quick"):
                 "callers": [{"id": "A", "start_us": 0,
                              "ops": [{"kind": "send", "cmd": s, "outs": {}, "gap_us": 0} for s in specs]}]}
         plan["knobs"]["latency"] = "fast"
+        # receive side: what the gateway reports back for each query (no answer,
+        # every kind of value incl. 0 and 255, framing error) must decode to what it denotes
+        x = plans.rng_for(seed, PROP + "-rx")
+        for op in plan["callers"][0]["ops"]:
+            sp = op["cmd"]
+            if supported(eng, sp[0]) and not long_run:
+                o = plans.gen_outcome(x, cmds.mk_cmd(sp), p_error=0.2)
+                if o and o[0] == "value":
+                    o[1] = x.choice([0, 255, 1, 254, x.randrange(256), x.randrange(256)])
+                plans.add_out(op["outs"], sp, o)
         if r.random() < 0.3 and not long_run:
             ops2 = [{"kind": "send", "cmd": cmds.gen_cmd(r, cats16), "outs": {}, "gap_us": 0}
                     for _ in range(r.randrange(1, 8))]
@@ -152,6 +163,9 @@ def supported(eng, bits):
 
 
 # ---------------------------------------------------------------------------
+_CONF_LIMIT_US = {"luba": 1_000_000, "sci": 100_000}
+
+
 def judge_async(rr):
     out = []
     plan = rr.plan
@@ -165,6 +179,12 @@ def judge_async(rr):
         return out
     for e in rr.dev.referee_errors:
         V("malformed-packet", "referee: %s" % (e,), site=str(e[0]))
+    # a confirmation slower than 80 % of the serial drivers' timeout may shift the
+    # confirmations / answers of everything after it (C16/C17's subject): the
+    # receive-side comparison is then skipped for the run
+    slow = drv in _CONF_LIMIT_US and any(
+        s_.get("conf_arrival_us") is None or s_["conf_arrival_us"] - s_["t_us"] > 0.8 * _CONF_LIMIT_US[drv]
+        for s_ in rr.dev.sends if "t_us" in s_)
     # what each unit asked for
     want = {}
     for u, rec in rr.ops.items():
@@ -187,6 +207,13 @@ def judge_async(rr):
                 rr.world.probe("refused-unsupported-length")
             continue
         if sup is None:
+            continue
+        if rec.status == "raised" and drv in ("luba", "sci") and type(rec.exc).__name__ == "TimeoutError" \
+                and any(s_.get("conf_arrival_us") is None or s_["conf_arrival_us"] - s_["t_us"] > 0.8 * _CONF_LIMIT_US[drv]
+                        for s_ in recs):
+            # a 24-bit send-twice frame behind a busy bus: the confirmation comes
+            # later than the driver's confirmation timeout - timing, judged by C17
+            rr.world.probe("slow-confirmation-set-aside")
             continue
         if rec.status != "ok":
             V("send-failed", "unit %s %s: %s %r" % (u, cmd, rec.status, rec.exc),
@@ -214,6 +241,11 @@ def judge_async(rr):
             rr.world.probe("send-twice-encoded")
         if len(cmd.frame) == 24:
             rr.world.probe("24-bit-encoded")
+        o = rec.op.get("outs", {}).get("%d:%d" % (spec[0], spec[1]))
+        if o is not None and u.startswith("A.") and not slow:
+            rr.world.probe("rx-" + o[0])
+            judge_response(lambda c_, d_, site=None: V("rx-" + c_, d_, site=site), drv, u, cmd, o, rec.result,
+                           False, set(), drv in ("luba", "sci"))
     if drv == "tridonic":
         seqs = [s["seq"] for s in rr.dev.sends]
         for a, b in zip(seqs, seqs[1:]):
